@@ -146,7 +146,7 @@ PROPS = {
                 "circuits for random, sparse, real and basis vectors in both orders. Phases are generated and compared as integers "
                 "k/2^m. Distinct = (step kind, problem kind, register size, state qubits, shots, scripted?) tuples; non-trivial = "
                 "run with >=3 steps of >=2 kinds or >=1 scripted draw.",
-        "probes": ["C20.shots_after_first_reuse_controller", "C20.second_simulate_on_same_solver", "C20.phase_register_below_state_register", "C20.get_resources_between_calls", "C20.hamiltonian_support_with_gap", "C20.same_argument_objects_second_solver"],
+        "probes": ["C20.shots_after_first_reuse_controller", "C20.second_simulate_on_same_solver", "C20.phase_register_below_state_register", "C20.get_resources_between_calls", "C20.hamiltonian_support_with_gap", "C20.same_argument_objects_second_solver", "C20.unitary_object_used_by_caller_before_solver"],
         "components_real": ["IterativeQPESolver + IterativeQPEControl, QPESolver, TrotterSuzukiUnitary, CircuitUnitary, trotterize, "
                             "get_qft_circuit, StateVector, CirqSimulator CMEASURE shot loop, cirq"],
         "components_stub": [],
